@@ -20,7 +20,7 @@ CFG = {
     "weights": {"eval": 6, "reeval": 1, "set": 3, "clearat": 2, "clear": 0.8, "clearall": 0.5},
     "compare": ["values", "graph", "refgraph"],
     "maxdepths": [None],
-    "raise_p": 0.02, "none_p": 0.02, "catch_all_p": 0.05, "all_cached": False,
+    "raise_p": 0.02, "none_p": 0.02, "catch_all_p": 0.05, "all_cached": False, "default_p": 0.35,
     "rule": "random dependency DAGs (recursion, fan-in through lower cells, uncached cells in between) with "
             "histories mixing evaluations and value edits of arbitrary elements; non-trivial = an edit whose "
             "element had at least one held dependent and at least one held non-dependent",
@@ -90,7 +90,10 @@ def oracle(case, recs, out, stats):
                 after = parse_values(impl.observe("values"))
                 if op[0] in ("set", "clearat"):
                     eq = op.index("=") if "=" in op else len(op)
-                    n = "%d[%s]" % (cid, ",".join(op[2:eq]))
+                    # the element the arguments denote, however they are spelled (subscript shorter than the
+                    # parameter list, keywords): bound by Python's own binder on the declared signature, not by modelx
+                    key = X.canon_key(case, cid, op[2:eq])
+                    n = None if key is None else node_s(cid, key)
                     targets = [n] if n in before else []
                     # with recalculation on, the assignment is made and a dependent that is recomputed at once may
                     # fail: the error comes out of the assignment, but the assignment was not refused
@@ -108,6 +111,9 @@ def oracle(case, recs, out, stats):
                 for t in targets + (["%d*" % cid] if op[0] in ("setformula", "setcached") else []):
                     gone |= {x for x in descendants(edges, t) if not x.endswith("*")}
                 # the ledger of inputs
+                if op[0] == "set" and (res == "ok" or recalc_failed) and n is None:
+                    out.fail("%s was accepted although the subscript does not bind to the parameters" % " ".join(op), hist)
+                    break
                 if op[0] == "set" and (res == "ok" or recalc_failed):
                     inputs.add(n)
                 elif op[0] == "clearat":
@@ -154,6 +160,8 @@ def oracle(case, recs, out, stats):
                     if after != expect:
                         out.fail("after %s the held values are not 'before minus dependents': %s" % (
                             " ".join(op), _diff(expect, after)), hist)
+                if op[0] == "set" and res == "ok":
+                    _assigned_under_every_spelling(impl, case, cid, key, op, hist, out, stats)
                 # survivors are served without running any formula
                 impl.log = []
                 for x, v in list(expect.items())[:6]:
@@ -172,6 +180,36 @@ def oracle(case, recs, out, stats):
             mx.set_recalc(False)
             impl.close()
     return nontrivial
+
+
+def _assigned_under_every_spelling(impl, case, cid, key, op, hist, out, stats):
+    """the assigned value is what the cells returns for those arguments – positional, by keyword, defaults left out,
+    as a subscript – without running a formula, and the element is an input under every spelling"""
+    c = next(x for x in case["cells"] if x["id"] == cid)
+    cells = impl.cells[cid]
+    v = op[op.index("=") + 1]
+    for label, pos, kw in X.all_spellings(c["nparams"], c.get("defaults") or [], key):
+        for sub in ((False, True) if not kw else (False,)):
+            how = "c%d%s" % (cid, "[%s]" % label[1:-1] if sub else label)
+            impl.log = []
+            with quiet():
+                try:
+                    got = val_s(X.spelled_call(cells, pos, kw, sub))
+                except BaseException as e:      # noqa: BLE001
+                    got = "error %r" % e
+            stats["oracle_assigned_spellings"] += 1
+            if got != v or impl.log:
+                out.fail("after %s, %s returns %s (formulas run: %s)" % (" ".join(op), how, got, impl.log), hist)
+                return
+        with quiet():
+            try:
+                inp = cells.is_input(*pos, **{"a%d" % i: x for i, x in kw.items()})
+            except BaseException as e:      # noqa: BLE001
+                inp = "error %r" % e
+        if inp is not True:
+            out.fail("after %s, c%d.is_input%s is %s" % (" ".join(op), cid, label, inp), hist)
+            return
+    impl.log = []
 
 
 def _lazy_values(case, k, elems):
@@ -242,8 +280,54 @@ def scenario_cases():
         "clearall": lambda R: [["clearall", "0"]], "set": lambda R: [["set", "0", "=", "8"]]})
 
 
+def spelled_edit_cases():
+    """Scenario family "the element is the same however its arguments are spelled": cells whose last parameters have
+    default values; dependents computed through calls that leave the defaults out, write them out, or give them by
+    keyword; then a value edit (assignment through a subscript of every admissible length, clear_at with positional /
+    keyword / mixed arguments) of an element that was computed under ANOTHER spelling, and every dependent asked again.
+    rate = c0(a0, a1=1), disc = c1(a0) calling c0(a0), pv = c2(a0) calling c1, other = c3(a0) calling c0(1, a1=1);
+    c4(a0, a1=2, a2=3) with callers c5 (one default given positionally) and c6 (the last one by keyword)."""
+    P0, L = ("p", 0), (lambda i: ("lit", i))
+    cells = [
+        {"id": 0, "nparams": 2, "defaults": [1], "body": ("add", ("mul", P0, L(10)), ("p", 1))},
+        {"id": 1, "nparams": 1, "body": ("if", ("lt", L(0), P0),
+                                         ("add", ("call", 1, [("sub", P0, L(1))]), ("call", 0, [P0])), L(0))},
+        {"id": 2, "nparams": 1, "body": ("add", ("call", 1, [P0]), L(100))},
+        {"id": 3, "nparams": 1, "body": ("add", ("callk", 0, [L(1)], [(1, L(1))]), P0)},
+        {"id": 4, "nparams": 3, "defaults": [2, 3],
+         "body": ("add", ("add", ("mul", P0, L(100)), ("mul", ("p", 1), L(10))), ("p", 2))},
+        {"id": 5, "nparams": 1, "body": ("add", ("call", 4, [P0, L(2)]), L(1))},
+        {"id": 6, "nparams": 1, "body": ("add", ("callk", 4, [P0], [(2, L(3))]), L(2))},
+    ]
+    for c in cells:
+        c.update(cached=True, allow_none=False)
+    evs = [["eval", "2", "3"], ["eval", "3", "7"], ["eval", "5", "1"], ["eval", "6", "1"], ["eval", "4", "1", "2", "3"]]
+    cases = []
+
+    def add(label, edits):
+        cases.append({"cells": [dict(c) for c in cells], "refs": {0: 1, 1: 2, 2: 3, 3: 4}, "n_rn": 2, "maxdepth": None,
+                      "ops": evs + edits + evs, "label": "spelled-edit/" + label})
+    # rate(2) == rate(2, 1) == rate(a0=2) == rate(2, a1=1): assigned through the short and the full subscript
+    for sp in (["2"], ["2", "1"]):
+        for then in ([["clear", "0"]], [["clearat", "0", "2"]], [["clearat", "0", "k1=1", "k0=2"]],
+                     [["set", "0", "2", "1", "=", "8"]], [["set", "0", "2", "=", "9"]]):
+            add("set c0[%s] then %s" % (",".join(sp), " ".join(then[0])),
+                [["set", "0"] + sp + ["=", "50"], ["eval", "2", "3"], ["eval", "0", "2"], ["eval", "0", "k0=2"]] + then)
+    for sp in (["2"], ["2", "1"], ["k0=2"], ["2", "k1=1"], ["k1=1", "k0=2"]):
+        add("clearat c0(%s)" % ",".join(sp), [["clearat", "0"] + sp])
+    # two defaulted parameters: every admissible length of the subscript, the element computed by the callers before
+    for sp in (["1"], ["1", "2"], ["1", "2", "3"]):
+        add("set c4[%s]" % ",".join(sp), [["set", "4"] + sp + ["=", "70"], ["eval", "5", "1"], ["eval", "6", "1"],
+                                            ["eval", "4", "1", "k2=3"], ["clear", "4"], ["clearat", "4", "1", "k1=2"]])
+    for sp in (["1"], ["1", "2"], ["1", "k2=3"], ["k0=1", "k2=3", "k1=2"], ["1", "2", "3"]):
+        add("clearat c4(%s)" % ",".join(sp), [["clearat", "4"] + sp])
+    # a subscript that does not bind is refused and changes nothing
+    add("short subscript without default", [["set", "4", "=", "1"], ["set", "0", "=", "1"], ["set", "0", "1", "2", "3", "=", "1"]])
+    return cases
+
+
 def run(ctx, out):
-    stats = X.run_family(ctx, out, CFG, oracle, 120, 2000, structured=scenario_cases())
+    stats = X.run_family(ctx, out, CFG, oracle, 120, 2000, structured=scenario_cases() + spelled_edit_cases())
     overwrite_equal(out, stats)
     out.coverage["input_distribution"]["overwrite_equal_scenarios"] = stats["overwrite_equal_scenarios"]
     out.assumptions.append("the recalculation option is checked by the implementation-only oracle; the Lean "
